@@ -268,7 +268,7 @@ var baseEnv = initBaseEnv(map[string]Extension{
 
 	"distinct": {
 		Func:               jlib.Distinct,
-		UndefinedHandler:   nil,
+		UndefinedHandler:   defaultUndefinedHandler,
 		EvalContextHandler: nil,
 	},
 	"count": {
@@ -426,7 +426,7 @@ func lookup(v reflect.Value, name string) (interface{}, error) {
 		return res.Interface(), nil
 	}
 
-	return nil, nil
+	return nil, jtypes.ErrUndefined
 }
 
 func throw(msg string) (interface{}, error) {
